@@ -2,12 +2,12 @@
 # seedrun_alt.sh <patch> <check-id...>  like seedrun.sh, on a scratch worktree of the repository
 # (/tmp/repo-alt at /repo's HEAD) with its own work directory, so it can run next to checks of /repo
 PATCH=$1; shift
-ALT=/tmp/repo-alt
+ALT=${ALT:-/tmp/repo-alt}
 [ -d $ALT ] || git -C /repo worktree add -q --detach $ALT HEAD
 git -C $ALT checkout -q --detach $(git -C /repo rev-parse HEAD) 2>/dev/null
 git -C $ALT checkout -- .
 git -C $ALT apply $PATCH || { echo "patch does not apply"; exit 2; }
 for id in "$@"; do
-  VERIF_REPO=$ALT VERIF_WORK=/verif/work/alt /verif/check $id ${TIER:+--tier $TIER} 2>&1 | grep -E "VIOLATION|held on|TOOL-ERROR|violating|failing|GEN|RAND" | cut -c1-260
+  VERIF_REPO=$ALT VERIF_WORK=/verif/work/$(basename $ALT) /verif/check $id ${TIER:+--tier $TIER} 2>&1 | grep -E "VIOLATION|held on|TOOL-ERROR|violating|failing|GEN|RAND" | cut -c1-260
 done
 git -C $ALT checkout -- .
